@@ -1135,9 +1135,7 @@ proof fn thm_c01(u: Seq<(Seq<char>, J)>, s: Strat, p0: Seq<(Seq<char>, J)>, hk: 
 
 // ---- from the presented strings to `genuine`: what the parser (C03.dmap) and the holder (C06: only held disclosures) establish ----
 // every disclosure the issuer created is well-formed: its digest is the digest of its own text, which decodes to an array
-spec fn all_wf(ds: DS) -> bool {
-    forall|i: int| 0 <= i < ds.len() ==> (#[trigger] ds[i]).hash@ == disc_digest(ds[i].raw_b64@) && disc_json(ds[i].raw_b64@) matches Some(J::Arr(_))
-}
+spec fn all_wf(ds: DS) -> bool { all_wf_from(ds, 0) }
 proof fn lemma_genuine_from_dmap(ps: Seq<Seq<char>>, ds: DS, dm: DM)
     requires dmap_of(ps) == Some(dm), all_wf(ds),
         forall|q: int| 0 <= q < ps.len() ==> exists|i: int| 0 <= i < ds.len() && #[trigger] ps[q] == (#[trigger] ds[i]).raw_b64@,
@@ -1182,4 +1180,27 @@ proof fn thm_c01_chain(u: Seq<(Seq<char>, J)>, s: Strat, p0: Seq<(Seq<char>, J)>
 {
     lemma_genuine_from_dmap(ps, ds, dm);
     thm_c01(u, s, p0, hk, ds, dm);
+}
+
+// C01 over the issuer's postcondition as it is proved on the code (`issued(..)`: payload_enc, all_wf, count): whatever marked
+// claims p0 the payload was assembled around, the verifier's algorithm over any presented genuine disclosures returns the view.
+proof fn thm_c01_issued(u: Seq<(Seq<char>, J)>, s: Strat, pl: Seq<(Seq<char>, J)>, hk: Option<jsonwebtoken::jwk::Jwk>, ds: DS, ps: Seq<Seq<char>>, dm: DM)
+    requires wf_j(J::Obj(u)), !has_reserved(J::Obj(u)), !j_has(u, K_SD_ALG()),
+        hk is Some ==> !j_has(u, "cnf"@) && wf_j(jwk_to_j(hk->Some_0)) && !has_reserved(jwk_to_j(hk->Some_0)),
+        /*issue_sd_jwt: C05.issued*/ payload_enc(pl, u, s, hk, ds, 0), ds.len() == hcount(J::Obj(without_root(u)), s), all_wf_from(ds, 0),
+        /*A-FRESH*/ distinct_hashes(ds), no_decoy_clash(ds),
+        forall|p0: Seq<(Seq<char>, J)>| pl == asm(p0, only_root(u), hk) && enc(J::Obj(without_root(u)), s, J::Obj(p0), ds, 0) ==> #[trigger] sep(J::Obj(without_root(u)), s, J::Obj(p0), ds, 0),
+        /*C03.dmap*/ dmap_of(ps) == Some(dm),
+        /*C06: only held disclosures*/ forall|q: int| 0 <= q < ps.len() ==> exists|i: int| 0 <= i < ds.len() && #[trigger] ps[q] == (#[trigger] ds[i]).raw_b64@,
+    ensures u_top(pl, dm) matches UR::Ok(J::Obj(vm), c) && exists|v2: Seq<(Seq<char>, J)>| vm == j_remove_key(v2, K_SD_ALG())
+        && #[trigger] is_view(J::Obj(v2), J::Obj(without_root(u) + extras_of(u, hk)), masked(s, extras_of(u, hk)), ds, 0, dm)
+{
+    let p0 = choose|p0: Seq<(Seq<char>, J)>| #![trigger j_insert(p0, K_SD_ALG(), J::Str("sha-256"@))]
+        pl == asm(p0, only_root(u), hk)
+        && drop_sd_entries(p0) == strip_members(without_root(u), s, without_root(u).len())
+        && !j_has(p0, K_DOTS()) && sd_list_ok(p0)
+        && enc(J::Obj(without_root(u)), s, J::Obj(p0), ds, 0);
+    thm_c01_chain(u, s, p0, hk, ds, ps, dm);
+    let v2 = u_val(J::Obj(pl), dm, Set::<Dig>::empty())->Ok_0->Obj_0;
+    assert(is_view(J::Obj(v2), J::Obj(without_root(u) + extras_of(u, hk)), masked(s, extras_of(u, hk)), ds, 0, dm));
 }
